@@ -487,7 +487,7 @@ private:
     {
       for (const auto& entry : fs::directory_iterator(fs::current_path() / filename.parent_path()))
       {
-        if (entry.path().extension().string() != filename.extension().string())
+        if (_entry_extension(entry.path(), filename) != filename.extension().string())
         {
           // we only check for the files of the same extension to remove
           continue;
@@ -504,7 +504,7 @@ private:
         {
           // only `logfile.log` and `logfile.<index>.log` belong to this sink, e.g. `logfile.access.log`
           // and `logfile.access.1.log` are the files of another sink
-          std::string const entry_stem = entry.path().stem().string();
+          std::string const entry_stem = _entry_stem(entry.path(), filename);
           size_t const pos = entry_stem.find_last_of('.');
 
           if ((pos == std::string::npos) ||
@@ -517,19 +517,19 @@ private:
         {
           // Find the first dot in the filename
           // stem will be something like `logfile.1`
-          if (size_t const pos = entry.path().stem().string().find_last_of('.'); pos != std::string::npos)
+          if (size_t const pos = _entry_stem(entry.path(), filename).find_last_of('.'); pos != std::string::npos)
           {
             // Get the today's date, we won't remove the files of the previous dates as they won't collide
             std::string const today_date =
               this->format_datetime_string(today_timestamp_ns, _config.timezone(), "%Y%m%d");
 
             if (std::string const index_or_date =
-                  entry.path().stem().string().substr(pos + 1, entry.path().stem().string().length());
+                  _entry_stem(entry.path(), filename).substr(pos + 1, _entry_stem(entry.path(), filename).length());
                 (index_or_date.length() >= 8) && (index_or_date == today_date))
             {
               // assume it is a date, no need to find the index
               if ((index_or_date == today_date) &&
-                  (entry.path().stem().string().substr(0, pos) == filename.stem().string()))
+                  (_entry_stem(entry.path(), filename).substr(0, pos) == filename.stem().string()))
               {
                 fs::remove(entry);
               }
@@ -561,7 +561,7 @@ private:
       for (const auto& entry : fs::directory_iterator(fs::current_path() / filename.parent_path()))
       {
         // is_directory() does not exist in std::experimental::filesystem
-        if (entry.path().extension().string() != filename.extension().string())
+        if (_entry_extension(entry.path(), filename) != filename.extension().string())
         {
           // we only check for the files of the same extension to remove
           continue;
@@ -574,15 +574,15 @@ private:
           continue;
         }
 
-        std::string const extension = entry.path().extension().string(); // e.g. ".log"
+        std::string const extension = _entry_extension(entry.path(), filename); // e.g. ".log"
 
         // stem will be something like `logfile.1`
-        if (size_t const pos = entry.path().stem().string().find_last_of('.'); pos != std::string::npos)
+        if (size_t const pos = _entry_stem(entry.path(), filename).find_last_of('.'); pos != std::string::npos)
         {
           if (_config.rotation_naming_scheme() == RotatingFileSinkConfig::RotationNamingScheme::Index)
           {
             std::string const index =
-              entry.path().stem().string().substr(pos + 1, entry.path().stem().string().length());
+              _entry_stem(entry.path(), filename).substr(pos + 1, _entry_stem(entry.path(), filename).length());
 
             std::string const current_filename = entry.path().filename().string().substr(0, pos) + extension;
             fs::path current_file = entry.path().parent_path();
@@ -615,7 +615,7 @@ private:
               this->format_datetime_string(today_timestamp_ns, _config.timezone(), "%Y%m%d");
 
             if (std::string const index_or_date =
-                  entry.path().stem().string().substr(pos + 1, entry.path().stem().string().length());
+                  _entry_stem(entry.path(), filename).substr(pos + 1, _entry_stem(entry.path(), filename).length());
                 (index_or_date.length() >= 8) && (index_or_date == today_date))
             {
               // assume it is a date, no need to find the index
@@ -670,6 +670,23 @@ private:
       std::sort(_created_files.begin(), _created_files.end(),
                 [](FileInfo const& a, FileInfo const& b) { return a.index < b.index; });
     }
+  }
+
+  /***/
+  /**
+   * The extension of a directory entry as this sink names its files. The rotated files of a sink
+   * whose file has no extension are `logfile.1`, `logfile.20240615`: the last component is then
+   * an index or a date and not an extension
+   */
+  QUILL_NODISCARD static std::string _entry_extension(fs::path const& entry, fs::path const& filename)
+  {
+    return filename.has_extension() ? entry.extension().string() : std::string{};
+  }
+
+  /***/
+  QUILL_NODISCARD static std::string _entry_stem(fs::path const& entry, fs::path const& filename)
+  {
+    return filename.has_extension() ? entry.stem().string() : entry.filename().string();
   }
 
   /***/
